@@ -142,7 +142,7 @@ impl KValue {
     pub fn is_indexable(&self) -> bool {
         use KValue::*;
         match self {
-            List(_) | Map(_) | Str(_) | Tuple(_) => true,
+            List(_) | Map(_) | Range(_) | Str(_) | Tuple(_) | TemporaryTuple(_) => true,
             Object(o) => o.try_borrow().is_ok_and(|o| o.size().is_some()),
             _ => false,
         }
@@ -152,7 +152,7 @@ impl KValue {
     pub fn is_iterable(&self) -> bool {
         use KValue::*;
         match self {
-            Range(_) | List(_) | Tuple(_) | Str(_) | Iterator(_) => true,
+            Range(_) | List(_) | Tuple(_) | Str(_) | Iterator(_) | TemporaryTuple(_) => true,
             Map(m) => {
                 if m.meta_map().is_some() {
                     m.contains_meta_key(&UnaryOp::Iterator.into())
@@ -202,7 +202,8 @@ impl KValue {
                 |o| o.type_string(),
             ),
             Iterator(_) => lazy!(KString; "Iterator"),
-            TemporaryTuple { .. } => lazy!(KString; "TemporaryTuple"),
+            // A temporary tuple is an implementation detail, its values are seen as a Tuple
+            TemporaryTuple { .. } => lazy!(KString; "Tuple"),
         }
     }
 
